@@ -171,7 +171,8 @@ class EnumMember:
 
 BUILTIN_NAMES = {
     "int", "str", "len", "isinstance", "issubclass", "float", "ord", "sum", "hash", "repr", "type",
-    "set", "tuple", "list", "dict", "enumerate", "bool", "next", "round", "super", "range", "bytes",
+    "set", "frozenset", "tuple", "list", "dict", "enumerate", "bool", "next", "round", "super", "range", "bytes",
+    "OverflowError", "ArithmeticError", "LookupError", "OSError", "ConnectionResetError",
     "Exception", "ValueError", "TypeError", "KeyError", "AssertionError", "NotImplementedError",
     "RuntimeError", "ConnectionError", "StopIteration", "AttributeError", "IndexError", "object",
     "min", "max", "abs", "sorted", "any", "all", "print", "zip", "iter", "BaseException",
